@@ -183,6 +183,37 @@ def main(tier):
             if got != sorted(exp):
                 chk.violation(f"C16/escaped-backslash glob={g!r}", f"`group --path {g}` selects {got} (exit {r.rc}), the glob matches exactly {sorted(exp)}",
                               {"glob": g, "got": got, "expected": exp, "stderr": r.err.decode("utf-8", "replace")[-400:]})
+        # the delimiter of the OTHER group kind is an ordinary character inside a group: a comma inside @(..), a bar or parentheses inside {..}
+        gdir = os.path.join(work, "anch", "t3")
+        gnames = ["a,b.txt", "c.txt", "a.txt", "v1,0.log", "x(1).dat", "y.dat", "p|q.bin", "r.bin", "p.bin"]
+        for n_ in gnames:
+            lib.write_file(os.path.join(gdir, n_), b"same3")
+        for g, exp in (("@(a,b|c).txt", ["a,b.txt", "c.txt"]), ("+(v1,0).log", ["v1,0.log"]), ("{x(1),y}.dat", ["x(1).dat", "y.dat"]), ("{p|q,r}.bin", ["p|q.bin", "r.bin"]),
+                       ("{a,c}.txt", ["a.txt", "c.txt"])):
+            r = lib.run_fclones(["group", "t3", "--name", g, "--rf-over", "0", "-f", "fdupes"], os.path.dirname(gdir), lib.base_env(work), timeout=60)
+            import dd
+            got = sorted(os.path.basename(os.fsdecode(dd.stfu8_decode(l))) for l in r.out.decode("utf-8", "replace").splitlines() if l.strip()) if r.rc == 0 else None
+            anch += 1
+            if got != sorted(exp):
+                chk.violation(f"C16/delimiter-of-other-group-kind glob={g!r}", f"`group --name {g}` selects {got} (exit {r.rc}), the glob matches exactly {sorted(exp)}",
+                              {"glob": g, "got": got, "expected": exp, "stderr": r.err.decode("utf-8", "replace")[-400:]})
+        # letter case is folded by --ignore-case only - also in a RELATIVE --path / --exclude pattern, which the selector joins to the working directory
+        cdir = os.path.join(work, "anch", "t4")
+        cnames = ["sub/a.txt", "sub/A.txt", "sub/a.TXT", "SUB/a.txt", "Sub/b.txt", "readme.md", "README.md"]
+        for n_ in cnames:
+            lib.write_file(os.path.join(cdir, n_), b"same4")
+        for opts, exp in ((["--path", "t4/sub/*.txt"], ["sub/A.txt", "sub/a.txt"]), (["--path", "t4/[a-z]*/[a-z].txt"], ["sub/a.txt"]),
+                          (["--path", "t4/readme.*"], ["readme.md"]), (["--exclude", "t4/sub/a.*"], ["SUB/a.txt", "Sub/b.txt", "sub/A.txt", "readme.md", "README.md"]),
+                          (["--path", "t4/sub/*.txt", "-i"], ["sub/A.txt", "sub/a.txt", "sub/a.TXT", "SUB/a.txt", "Sub/b.txt"]), (["--path", "T4/sub/*"], []),
+                          (["--exclude", "t4/SUB/**"], ["sub/a.txt", "sub/A.txt", "sub/a.TXT", "Sub/b.txt", "readme.md", "README.md"]),
+                          (["--path", "t4/**/a.txt"], ["sub/a.txt", "SUB/a.txt"]), (["--name", "README.*"], ["README.md"])):
+            r = lib.run_fclones(["group", "t4", "--rf-over", "0", "-f", "fdupes"] + opts, os.path.dirname(cdir), lib.base_env(work), timeout=60)
+            import dd
+            got = sorted(os.path.relpath(os.fsdecode(dd.stfu8_decode(l)), cdir) for l in r.out.decode("utf-8", "replace").splitlines() if l.strip()) if r.rc == 0 else None
+            anch += 1
+            if got != sorted(exp):
+                chk.violation(f"C16/case-folded-without-ignore-case opts={' '.join(opts)!r}", f"`group t4 {' '.join(opts)}` selects {got} (exit {r.rc}), the options describe exactly {sorted(exp)}",
+                              {"opts": opts, "got": got, "expected": sorted(exp), "stderr": r.err.decode("utf-8", "replace")[-400:]})
         chk.cov["anchor_char_cases"] = anch
         chk.cov["selector_pairs"] = len(sel)
         chk.cov["evaluations"] = pairs
